@@ -127,7 +127,7 @@ Proof. intros H. unfold m_make. destruct (Z.ltb_spec n 0); [lia|reflexivity]. Qe
    given what one iteration does on a buffer with room for one more escape *)
 Lemma fmt_while {St R} (pk : list Z -> Z -> Z -> Z -> St) (c : St -> M bool) (b : St -> M (ctl St R)) (p : St -> M St)
     (s : list Z) (cap : nat) (esc : Z -> option (list Z)) (fo : Z) :
-  (forall k out f0 e, (k < length s)%nat -> esc (nth k s 0) = Some e -> length e = 4%nat -> (length out + 4 <= cap)%nat ->
+  (forall k out f0 e, (k < length s)%nat -> esc (nth k s 0) = Some e -> length e = 4%nat -> (length out + 4 <= cap)%nat -> length out = (4 * k)%nat ->
      iter1 c b p (pk (pad_to cap out) (Z.of_nat (length out)) f0 (Z.of_nat k)) =
      Ret (inl (pk (pad_to cap (out ++ e)) (Z.of_nat (length out) + 4) (Z.of_nat (length out) + fo) (Z.of_nat k + 1)))) ->
   (forall B j f0, iter1 c b p (pk B j f0 (zlen s)) = Ret (inr (inl (pk B j f0 (zlen s))))) ->
@@ -168,12 +168,12 @@ Ltac fmt_iter s n Hfuel :=
 Ltac fmt_shape pk c b p fuel esc fo n unfold_esc :=
   lazymatch goal with Hb : bytes ?s, Hcap : ?cap = (4 * length ?s)%nat, Hesc : forall k, (k < length ?s)%nat -> exists e, esc _ = Some e /\ _ |- _ =>
     let H1 := fresh "H1" in let H2 := fresh "H2" in
-    assert (H1 : forall k out f0 e, (k < length s)%nat -> esc (nth k s 0) = Some e -> length e = 4%nat -> (length out + 4 <= cap)%nat ->
+    assert (H1 : forall k out f0 e, (k < length s)%nat -> esc (nth k s 0) = Some e -> length e = 4%nat -> (length out + 4 <= cap)%nat -> length out = (4 * k)%nat ->
        iter1 c b p (pk (pad_to cap out) (Z.of_nat (length out)) f0 (Z.of_nat k)) =
        Ret (inl (pk (pad_to cap (out ++ e)) (Z.of_nat (length out) + 4) (Z.of_nat (length out) + fo) (Z.of_nat k + 1))));
     [ let k := fresh "k" in let out := fresh "out" in let f0 := fresh "f0" in let e := fresh "e" in
-      let Hk := fresh "Hk" in let He := fresh "He" in let Hle := fresh "Hle" in let Hroom := fresh "Hroom" in
-      intros k out f0 e Hk He Hle Hroom; iter_open;
+      let Hk := fresh "Hk" in let He := fresh "He" in let Hle := fresh "Hle" in let Hroom := fresh "Hroom" in let Hlen := fresh "Hlen" in
+      intros k out f0 e Hk He Hle Hroom Hlen; iter_open;
       assert (Hl : (Z.of_nat k <? zlen s) = true) by (apply Z.ltb_lt; unfold zlen; lia); rewrite ?Hl;
       unfold_esc He;
       match type of He with option_map _ ?au = Some _ =>
@@ -207,7 +207,7 @@ Proof. unfold pad_to. cbn [app length]. rewrite Nat.sub_0_r. reflexivity. Qed.
 (* for every byte string and every fuel above its length *)
 Theorem code_OctalFormat : forall fuel s, bytes s -> (length s < fuel)%nat -> g_OctalFormat fuel s = lift (octal_format s).
 Proof.
-  intros fuel s Hb Hf. unfold g_OctalFormat. set (K1 := g_appendUint). repeat autounfold with go2v. subst K1. step_code.
+  intros fuel s Hb Hf. unfold g_OctalFormat. repeat autounfold with go2v_aux. step_code.
   rewrite m_make_ok by (unfold zlen; lia). step_code.
   unfold octal_format. rewrite octal_format_go_fmt.
   replace (Z.to_nat (zlen s * 4)) with (4 * length s)%nat by (unfold zlen; lia). replace (length s * 4)%nat with (4 * length s)%nat by lia.
@@ -216,14 +216,16 @@ Proof.
     first [ solve [fmt_shape (fun (B : list Z) (j f i : Z) => (B, j, f, i)) c b p fuel esc_oct 1 3%nat ltac:(fun H => unfold esc_oct in H)]
           | solve [fmt_shape (fun (B : list Z) (j f i : Z) => (i, B, j, f)) c b p fuel esc_oct 1 3%nat ltac:(fun H => unfold esc_oct in H)]
           | solve [fmt_shape (fun (B : list Z) (j f i : Z) => (B, j, i)) c b p fuel esc_oct 1 3%nat ltac:(fun H => unfold esc_oct in H)]
-          | solve [fmt_shape (fun (B : list Z) (j f i : Z) => (i, B, j)) c b p fuel esc_oct 1 3%nat ltac:(fun H => unfold esc_oct in H)] ]
+          | solve [fmt_shape (fun (B : list Z) (j f i : Z) => (i, B, j)) c b p fuel esc_oct 1 3%nat ltac:(fun H => unfold esc_oct in H)]
+          | solve [fmt_shape (fun (B : list Z) (j f i : Z) => (B, i)) c b p fuel esc_oct 1 3%nat ltac:(fun H => unfold esc_oct in H)]
+          | solve [fmt_shape (fun (B : list Z) (j f i : Z) => (i, B)) c b p fuel esc_oct 1 3%nat ltac:(fun H => unfold esc_oct in H)] ]
   end.
 Qed.
 
 (* ... and above 2: toUpper runs over the two digits with the caller's fuel *)
 Theorem code_HexFormat : forall fuel s, bytes s -> (length s < fuel)%nat -> (2 < fuel)%nat -> g_HexFormat fuel s = lift (hex_format s).
 Proof.
-  intros fuel s Hb Hf Hf2. unfold g_HexFormat. set (K1 := g_appendUint). set (K2 := g_toUpper). repeat autounfold with go2v. subst K1 K2. step_code.
+  intros fuel s Hb Hf Hf2. unfold g_HexFormat. repeat autounfold with go2v_aux. step_code.
   rewrite m_make_ok by (unfold zlen; lia). step_code.
   unfold hex_format. rewrite hex_format_go_fmt.
   replace (Z.to_nat (zlen s * 4)) with (4 * length s)%nat by (unfold zlen; lia). replace (length s * 4)%nat with (4 * length s)%nat by lia.
@@ -232,7 +234,9 @@ Proof.
     first [ solve [fmt_shape (fun (B : list Z) (j f i : Z) => (B, j, f, i)) c b p fuel esc_hex 2 2%nat ltac:(fun H => unfold esc_hex in H)]
           | solve [fmt_shape (fun (B : list Z) (j f i : Z) => (i, B, j, f)) c b p fuel esc_hex 2 2%nat ltac:(fun H => unfold esc_hex in H)]
           | solve [fmt_shape (fun (B : list Z) (j f i : Z) => (B, j, i)) c b p fuel esc_hex 2 2%nat ltac:(fun H => unfold esc_hex in H)]
-          | solve [fmt_shape (fun (B : list Z) (j f i : Z) => (i, B, j)) c b p fuel esc_hex 2 2%nat ltac:(fun H => unfold esc_hex in H)] ]
+          | solve [fmt_shape (fun (B : list Z) (j f i : Z) => (i, B, j)) c b p fuel esc_hex 2 2%nat ltac:(fun H => unfold esc_hex in H)]
+          | solve [fmt_shape (fun (B : list Z) (j f i : Z) => (B, i)) c b p fuel esc_hex 2 2%nat ltac:(fun H => unfold esc_hex in H)]
+          | solve [fmt_shape (fun (B : list Z) (j f i : Z) => (i, B)) c b p fuel esc_hex 2 2%nat ltac:(fun H => unfold esc_hex in H)] ]
   end.
 Qed.
 
@@ -353,7 +357,7 @@ Ltac uf_shape pk c b p K fuel :=
    it, one rune per iteration. *)
 Theorem code_UnicodeFormat : forall fuel s, bytes s -> (length s < fuel)%nat -> (8 < fuel)%nat -> g_UnicodeFormat fuel s = lift (unicode_format s).
 Proof.
-  intros fuel s Hb Hf Hf8. unfold g_UnicodeFormat. set (K1 := g_appendUint). set (K2 := g_toUpper). repeat autounfold with go2v. subst K1 K2. step_code.
+  intros fuel s Hb Hf Hf8. unfold g_UnicodeFormat. repeat autounfold with go2v_aux. step_code.
   unfold std_utf8_RuneCount. rewrite m_make_ok by lia. step_code.
   pose proof (unicode_format_shape s Hb) as Hm. rewrite Hm. cbn [lift]. unfold unicode_format in Hm.
   replace (Z.to_nat (Z.of_nat (Utf8.rune_count s) * 10)) with (Utf8.rune_count s * 10)%nat by lia.
@@ -495,7 +499,7 @@ Ltac u16f_shape pk c b p K fuel :=
 (* Utf16Format: every byte string, every fuel above its length (and above 4: toUpper over the four digits) *)
 Theorem code_Utf16Format : forall fuel s, bytes s -> (length s < fuel)%nat -> (4 < fuel)%nat -> g_Utf16Format fuel s = lift (utf16_format s).
 Proof.
-  intros fuel s Hb Hf Hf4. unfold g_Utf16Format. set (K1 := g_appendUint). set (K2 := g_toUpper). repeat autounfold with go2v. subst K1 K2. step_code.
+  intros fuel s Hb Hf Hf4. unfold g_Utf16Format. repeat autounfold with go2v_aux. step_code.
   unfold std_utf8_RuneCount. rewrite m_make_cap_0 by lia. step_code.
   pose proof (utf16_format_shape s Hb) as Hm. rewrite Hm. cbn [lift]. unfold utf16_format in Hm.
   match goal with |- match while _ ?c ?b ?p ?s0 with Ret a => @?K a | Panic => Panic | NoFuel => NoFuel end = _ =>
